@@ -60,6 +60,10 @@ type GlobalTSOAllocator struct {
 	// to determine whether a TSO request could be processed.
 	leadership      *election.Leadership
 	timestampOracle *timestampOracle
+	// syncMux serializes the Global TSO generations that need to synchronize with the
+	// Local TSO Allocators, so that two of them can never observe the same max Local TSO
+	// and hand out the same Global TSO.
+	syncMux sync.Mutex
 	// syncRTT is the RTT duration a SyncMaxTS RPC call will cost,
 	// which is used to estimate the MaxTS in a Global TSO generation
 	// to reduce the gRPC network IO latency.
@@ -169,6 +173,8 @@ func (gta *GlobalTSOAllocator) GenerateTSO(count uint32) (pdpb.Timestamp, error)
 
 	// Have dc-locations configured in the cluster, use the Global TSO generation way.
 	// (whit synchronization with other Local TSO Allocators)
+	gta.syncMux.Lock()
+	defer gta.syncMux.Unlock()
 	ctx, cancel := context.WithCancel(context.Background())
 	defer cancel()
 	for i := 0; i < maxRetryCount; i++ {
